@@ -84,6 +84,16 @@ def run_case(p, case, rng, rnd, dense_too=True, built=None):
         lst = [decoy] * idx + [counts] + [decoy] * (3 - idx)
         p.counters["fits through result_index"] += 1
         ok, ev = call(lambda: StabilizerMeasurementFitter(tomo.FakeResult(lst), qc, result_index=idx).expectation_values())
+    elif p.evals % 3 == 1:
+        # one fitter object asked more than once (expectation values, again, then in the other mode): the LAST answer is judged
+        p.counters["fitter objects evaluated repeatedly"] += 1
+
+        def repeated():
+            f = StabilizerMeasurementFitter(tomo.FakeResult(counts), qc)
+            f.expectation_values()
+            f.expectation_values(False)
+            return f.expectation_values()
+        ok, ev = call(repeated)
     else:
         ok, ev = call(lambda: StabilizerMeasurementFitter(tomo.FakeResult(counts), qc).expectation_values())
     if not ok:
@@ -139,7 +149,12 @@ def run_case(p, case, rng, rnd, dense_too=True, built=None):
     if not ok:
         p.violate(key + "circuit-raises", "stabilizer_measurement_circuit raised %s" % exc_name(qc2), cj)
         return
-    ok, ev2 = call(lambda: StabilizerMeasurementFitter(tomo.FakeResult(tomo.dense_counts(qc2, init, n)), qc2).expectation_values())
+    def dense_fit():
+        f = StabilizerMeasurementFitter(tomo.FakeResult(tomo.dense_counts(qc2, init, n)), qc2)
+        if n <= 4:
+            f.density_matrix()              # asked for the matrix first, then for the values: same object
+        return f.expectation_values()
+    ok, ev2 = call(dense_fit)
     if not ok:
         p.violate(key + "fitter-raises", "expectation_values raised %s" % exc_name(ev2), cj)
         return
